@@ -119,13 +119,16 @@ def materials(work: Path):
     g.write_text(
         "\n".join(
             [
-                F.enc_kida(F.AReaction(["HE"], ["HE+", "E"], 0.5, 0.0, 0.0, -9999, 9999, 1, 1, "CR")),
+                F.enc_kida(F.AReaction(["HE+", "O"], ["HE", "O+"], 1e-15, 0.0, 30000.0, 10, 800, 1, 3)),
                 F.enc_kida(F.AReaction(["HE+", "E"], ["HE"], 1e-11, -0.5, 0.0, 10, 800, 2, 3)),
                 F.enc_kida(F.AReaction(["HE+", "H"], ["HE", "H+"], 1e-15, 0.0, 0.0, 10, 800, 3, 3)),
             ]
         )
         + "\n"
     )
+    # ... and a second file G reads into its network later (its edit step)
+    g2 = work / "g2.kida"
+    g2.write_text(F.enc_kida(F.AReaction(["HE+", "C"], ["HE", "C+"], 1.6e-9, 0.0, 0.0, 10, 800, 4, 3)) + "\n")
     # K: a second KROME file that relies on the *default* column layout (no @format) and has its own @common
     k = work / "k.krome"
     k.write_text(
@@ -138,7 +141,7 @@ def materials(work: Path):
         )
         + "\n"
     )
-    return {"A": str(a), "B": str(bdir), "C": str(c), "D": str(d), "G": str(g), "K": str(k)}
+    return {"A": str(a), "B": str(bdir), "C": str(c), "D": str(d), "G": str(g), "G2": str(g2), "K": str(k)}
 
 
 def client_build(c, mat):
@@ -162,7 +165,8 @@ def client_build(c, mat):
     if c == "K":
         return Network(filelist=mat["K"], fileformats="krome")
     if c == "G":
-        return Network(filelist=mat["G"], fileformats="kida", elements=["E", "H", "HE", "C", "O"], pseudo_elements=["CR", "Photon"])
+        # an element list of its own and nothing else (no marker list), like the bundled minimal example
+        return Network(filelist=mat["G"], fileformats="kida", elements=["E", "H", "HE", "C", "O"])
     if c == "F":
         return Network(
             [
@@ -178,9 +182,16 @@ def client_build(c, mat):
     raise HarnessError(c)
 
 
-def client_edit(c, net):
+def client_edit(c, net, mat):
     from naunet.reactions.reaction import Reaction
     from naunet.reactiontype import ReactionType
+
+    if c == "G":
+        # a second file read into the existing network: the network's own lists apply to it, whoever ran in between
+        try:
+            net.add_reaction_from_file(mat["G2"], "kida")
+        except Exception as e:
+            raise RuntimeError(f"[add_reaction_from_file] {type(e).__name__}: {e}") from e
 
     extra = {"G": (["HE", "H+"], ["HE+", "H"]), "A": (["C2", "H"], ["CH", "C"]), "C": (["H2O", "CRP"], ["OH", "H"]), "D": (["H", "H2"], ["H2", "H"]), "K": (["H2", "H+"], ["H2+", "H"]), "F": (["H2", "CR"], ["H", "H"])}[c]
     t = ReactionType.GAS_COSMICRAY if ("CR" in extra[0] or "CRP" in extra[0]) else ReactionType.GAS_TWOBODY
@@ -266,7 +277,7 @@ def run_schedule(arg):
                     if stepname == "build":
                         nets[ci] = client_build(c, mat)
                     elif stepname == "edit":
-                        client_edit(c, nets[ci])
+                        client_edit(c, nets[ci], mat)
                     elif stepname == "where":
                         # the "read-only" public entry points: none of them may leave anything behind, whether it
                         # succeeds or raises for this client's network
@@ -319,6 +330,9 @@ def culprits(r, c, kind, h=""):
             last = idxs[0]
     before = [progs[ci][0] for ci, st in r["schedule"][:last] if ci != vi]
     custom = [x for x in before if x in CUSTOM_LISTS]
+    if h.startswith("EXC") and "[add_reaction_from_file]" in h:
+        # not the Reaction-built-outside-the-network mechanism of the open finding: a file read BY the network
+        return f"add-from-file-under-element-lists-of-{custom[-1] if custom else '+'.join(sorted(set(before)))}"
     if h.startswith("EXC") and ("Unrecongnized name" in h or "unrecognizable" in h) and custom:
         return f"element-lists-of-{custom[-1]}"
     if not h.startswith("EXC") and "B" in before and c == "F":
@@ -450,7 +464,7 @@ def run(ctx):
         "scheduling points are public API call boundaries (the library is single-threaded); every schedule runs in a fresh process forked from a parent that never touched a naunet global",
         "hash = sha256 over include/ src/ python/ with the project name masked (the only embedded date lives in the top-level CMakeLists.txt, outside the hashed trees)",
         "reference hash of a client = rendering it alone in fresh processes under several PYTHONHASHSEED values, twice in a row; these must agree among themselves",
-        "clients: A KIDA/default lists; B UCLCHEM project through RenderCommand (upper-case elements, replacement table, binding energy and yield of #CO); C Leeds with custom element lists and prefix G; D KROME with its own @format/@var/@common; K a second KROME file relying on the default column layout with another @common; F API-built ice network reading #CO's binding energy; G KIDA file with an upper-case element list and no replacement table",
+        "clients: A KIDA/default lists; B UCLCHEM project through RenderCommand (upper-case elements, replacement table, binding energy and yield of #CO); C Leeds with custom element lists and prefix G; D KROME with its own @format/@var/@common; K a second KROME file relying on the default column layout with another @common; F API-built ice network reading #CO's binding energy; G KIDA file with an upper-case element list only (no marker list, no replacement table), whose edit step first reads a second file into the network",
     ]
     return {
         "states": nsched + nexec,
